@@ -484,6 +484,18 @@ func VerdictC10(h *History, sequential bool) string {
 			}
 		}
 	}
+	// Any schedule: slots are never given back, so a combination that was
+	// refused once can never be admitted in the same run. A request that is
+	// refused although items of its own combination are exported (a racing
+	// first arrival of the SAME combination took the last slot) brought no
+	// "further combination" - its refusal discards telemetry of an admitted
+	// tenant.
+	for _, c := range order {
+		combo := Combination(cfg.Keys, h.Sc.Reqs[c.Req].Meta)
+		if c.Done && c.Err != nil && consumererror.IsPermanent(c.Err) && noExportErr(c.Err) && exportedOf[c.Req] == 0 && admitted[combo] {
+			return fmt.Sprintf("request %d was refused (%v) although its combination [%s] is admitted: other requests of the same combination were exported", c.Req, c.Err, combo)
+		}
+	}
 	return ""
 }
 
